@@ -126,4 +126,13 @@ theorem callExtern_reduce (s : State) (hr : Span s.readable s.writable s.r0.toNa
   rw [show ∀ a p : Nat, (if a < p then a else a - p) = reduceVal a p from fun _ _ => rfl]
   rw [storeMany_ok _ s _ hr.aligned (fun i hi => hr.writable rfl i (by rwa [wordsOfNat_length] at hi))]
 
+/-- the `bl` instruction on an explicit state -/
+theorem exec_bl_reduce_mk (r0 r1 r2 r3 r4 r5 r6 r7 r8 r9 r10 r11 r12 sp lr : Word) (nf zf cf vf : Option Bool)
+    (m : Nat → Word) (rd wr : Nat → Bool) (pc : Nat) (csm : Bool)
+    (hr : Span rd wr r0.toNat 12 true) (ha : Span rd wr r1.toNat 12 false) (hp : Span rd wr r2.toNat 12 false) :
+    exec ⟨r0, r1, r2, r3, r4, r5, r6, r7, r8, r9, r10, r11, r12, sp, lr, nf, zf, cf, vf, m, rd, wr, pc, .running, csm⟩ (.bl .fpbase_384_reduce)
+      = ⟨clobber 0, clobber 1, clobber 2, clobber 3, r4, r5, r6, r7, r8, r9, r10, r11, clobber 12, sp, clobber 14, none, none, none, none, writeList m r0.toNat (wordsOfNat 12 (reduceVal (val (2 ^ 32) (limbs32 m r1.toNat 12)) (val (2 ^ 32) (limbs32 m r2.toNat 12)))), rd, wr, pc + 1, .running, (csm || sp.toNat % 8 != 0)⟩ := by
+  rw [exec_bl, callExtern_reduce _ hr ha hp]
+  rfl
+
 end Jedi.Thumb1
